@@ -42,6 +42,14 @@ NOTES = {
  "C12c": "same region-encoding change as C10c/C16c (three agents found it independently); C12's region-size sweep does not produce a free region of exactly 255 pages, C10 does",
  "C13c": "race between Reader.Done/ACK closing a read transaction and the producer's commit, Observer installed",
  "C16c": "same region-encoding change; not a header-selection defect, C10 owns it",
+ "C02d": "one-token change in a function that one of my own repairs had added (waLog.uses walks keys instead of values): needs overflow pages + a larger limit; reported by C14's allocation sweep after a resize, C02 has no resize",
+ "C05d": "needed queues whose tail page is exactly full with several event starts, reopened (seeded search 'full-tail-page' in C05/C17, half- and quarter-page event sizes); C12 reported it first through the harvested queue states",
+ "C06d": "fourth independent rediscovery of the 255-page region encoding; C10 owns it",
+ "C10d": "off-by-one in the bounds check my repair D24 had added: needs a region of 255+ pages whose 12-byte entry ends exactly at the end of a free-list page (125 small regions before it): C10's alignment sweep over k one-page regions + one 300-page region",
+ "C11d": "same encoding change, but its report pointed at a fresh file with InitMetaArea=256 (a 255-page meta free region from the start): configurations I254/I255/I256 and the meta-leak oracle in C11's capacity probe",
+ "C15d": "needed finished transactions that had run CheckpointWAL (receiver states committed+checkpoint, rolledback+checkpoint)",
+ "C17d": "Active counter with the read pointer in front of the head pointer: boundary shapes of C17",
+ "C18d": "shared instead of exclusive lock on the wait-flag path: needed a holder that was itself opened with the wait flag (operation OpenA(wait flag, file free))",
  "C18b": "needs an I/O failure during a resizing open: C08 reports the hang as an exact deadlock; C18 (real file system) cannot inject it",
 }
 
